@@ -426,3 +426,49 @@ pub fn bookgen(out: &mut Out, thorough: bool) {
     }
     let _ = std::fs::remove_dir_all(&dir);
 }
+
+// ------------------------------------------------------------------------------------------ magic generator
+
+/// C08 for the generator: the tables `chess_lookup_generator::{bishop,rook}_moves()` produce (a random search, so a
+/// different multiplier on every run) must answer every subset of each square's relevance mask with the ray cast
+pub fn magicgen(out: &mut Out, thorough: bool) {
+    let mut run = |out: &mut Out, piece: &'static str, table: chess_lookup_generator::MagicTable| {
+        for (sq, e) in table.entries.iter().enumerate() {
+            let mask = e.mask.to_u64();
+            let bits: Vec<u32> = (0..64).filter(|i| mask >> i & 1 == 1).collect();
+            let n = 1usize << bits.len();
+            let req = format!("magicgen {piece} {sq} {:x} {:x} {} {}", e.factor, mask, e.shift, e.offset);
+            out.case(piece, true, req, || {
+                let mut d = 0u64;
+                for idx in 0..n {
+                    let mut x = 0u64;
+                    for (j, b) in bits.iter().enumerate() {
+                        if idx >> j & 1 == 1 {
+                            x |= 1u64 << b;
+                        }
+                    }
+                    let slot = (x.wrapping_mul(e.factor) >> e.shift) as usize + e.offset;
+                    let w = table.data.get(slot).map(|b| b.to_u64()).unwrap_or(0);
+                    d = d.wrapping_mul(1000003).wrapping_add(w);
+                }
+                format!("covers=true digest={d}")
+            });
+        }
+    };
+    let t = std::time::Instant::now();
+    match crate::common::guard(chess_lookup_generator::bishop_moves) {
+        Some(tb) => run(out, "bishop", tb),
+        None => out.record("bishop", true, "expect generated #bishop_moves".into(), "trap panic in bishop_moves()".into()),
+    }
+    let tb = t.elapsed();
+    let mut note = format!("bishop_moves() {tb:?}");
+    if thorough {
+        let t = std::time::Instant::now();
+        match crate::common::guard(chess_lookup_generator::rook_moves) {
+            Some(tr) => run(out, "rook", tr),
+            None => out.record("rook", true, "expect generated #rook_moves".into(), "trap panic in rook_moves()".into()),
+        }
+        note.push_str(&format!(", rook_moves() {:?}", t.elapsed()));
+    }
+    out.notes.insert("generator".into(), note);
+}
